@@ -100,6 +100,15 @@ CHECKS = {
         "note": "Trusted: Python ast, numpy np.where / np.multiply semantics. These are syntactic pass-through / wiring rules over the decorator bodies; C01 supplies the slim-order meaning of 'entry k'.",
         "technique": "static analysis: pass-through and dispatch rules over the AST of the decorator layer; alias-based no-write-to-input rule; guard-form rule",
     },
+    "C18": {
+        "text": "Decides, for every mask, sub-size map and source-plane coordinate set: in relocated_grid_via_jit_from the output starts as an element-wise copy of the input (same shape, row k -> row k) and the ONLY other store is "
+                "dominated by both (radius from the border centroid > smallest border radius) and (move factor = nearest-border-point radius / point radius < 1) - interior points unchanged bit-for-bit, never outward; the moved point is "
+                "factor*(p - c) + c with one centroid c (on its ray), radii and nearest point computed with both components from that same centroid (canonical-form equality); the sub-border search runs on the pixel-unit grid "
+                "(scales (1,1), origin (0,0)) from the bounding-box centre ((max+min)/2), keeps the farthest (>=) candidate among the border pixel's OWN sub-pixels, one entry per border pixel in order; entry points relocate their argument "
+                "grid against the border of the DATA grid argument at the sub-border indices (mesh vertices included). Not decided: the metric inequalities as numbers.",
+        "note": "Trusted: Python ast, E1 resolver, numpy mean/min/argmin/sqrt semantics (uninterpreted).",
+        "technique": "static analysis: abstract evaluation to polynomial normal forms + guard dominance on the single moving store; canonical-form equality; call-site wiring rule",
+    },
 }
 
 NOT_APPLICABLE = {f"C{n:02d}": PENDING for n in range(1, 21) if f"C{n:02d}" not in CHECKS}
